@@ -586,6 +586,7 @@ type Contract struct {
 	External  bool
 	NoBody    bool   // contract only used at call sites
 	Blocking  bool   // channel sends in this body may block by design (rendezvous); no nonblocking obligation
+	EntryHeld []Expr // locks the caller holds when it calls this function (`entry-held x.mu`): held exactly once at entry
 	AssumePre bool   // callee preconditions and run-time checks of this body are assumed, not checked (listed as unchecked)
 	LockOnly  bool   // only the lock obligations (C18) are generated for the body; everything else is assumed
 	Ghost     string // free-form note
@@ -644,6 +645,7 @@ type ContractSet struct {
 	Lemmas   []*Lemma
 	Axioms   []*Axiom
 	Signals  map[string]bool    // "pkg.Type.field" channels used as close-only signals
+	Guarded  map[string]string // "pkg.Type.field" -> "pkg.Type.lockfield" (same object): lock discipline, C18
 	ChanInvs map[string]*Clause // "pkg.Type.field" -> invariant over `v` of every value sent on that channel
 	Order    []string
 }
@@ -668,7 +670,7 @@ func parseTags(s string) (props []string, label string, rest string) {
 }
 
 var clauseKW = map[string]bool{"requires": true, "ensures": true, "assigns": true, "pure": true, "trusted": true, "loop": true,
-	"at-call": true, "func": true, "spec": true, "ghost": true, "lemma": true, "axiom": true, "iterated": true, "signal": true, "fresh": true, "cover": true, "nobody": true, "lockonly": true, "assume-callee-pre": true, "blocking": true, "chaninv": true, "ghost-set": true, "moninv": true, "opaque": true, "iterates": true}
+	"at-call": true, "func": true, "spec": true, "ghost": true, "lemma": true, "axiom": true, "iterated": true, "signal": true, "fresh": true, "cover": true, "nobody": true, "lockonly": true, "assume-callee-pre": true, "entry-held": true, "blocking": true, "chaninv": true, "guarded": true, "ghost-set": true, "moninv": true, "opaque": true, "iterates": true}
 
 // LoadContractFile parses one contract file. pkgPath qualifies short function keys ("" for spec files,
 // whose keys are already fully qualified).
@@ -814,6 +816,17 @@ func (cs *ContractSet) LoadContractText(text, path, pkgPath string, external boo
 		case "signal":
 			cs.Signals[rest] = true
 			cur = nil
+		case "guarded":
+			// guarded pkg.Type.field by pkg.Type.lockfield
+			f := strings.Fields(rest)
+			if len(f) != 3 || f[1] != "by" {
+				return fail(fmt.Errorf("guarded <pkg.Type.field> by <pkg.Type.lockfield>"))
+			}
+			if cs.Guarded == nil {
+				cs.Guarded = map[string]string{}
+			}
+			cs.Guarded[f[0]] = f[2]
+			cur = nil
 		case "chaninv":
 			// chaninv pkg.Type.field: expr over v   (checked at every send, assumed at every receive)
 			i := strings.Index(rest, ":")
@@ -924,6 +937,12 @@ func (cs *ContractSet) LoadContractText(text, path, pkgPath string, external boo
 				cur.LockOnly = true
 			case "assume-callee-pre":
 				cur.AssumePre = true
+			case "entry-held":
+				e, err := ParseExpr(rest)
+				if err != nil {
+					return fail(err)
+				}
+				cur.EntryHeld = append(cur.EntryHeld, e)
 			case "blocking":
 				cur.Blocking = true
 			case "iterated":
